@@ -56,6 +56,7 @@ type Options struct {
 	Seed    uint64        // scheduler seed
 	Settle  time.Duration // scheduler settle delay (default 100µs)
 	StartMs int64         // initial physical clock (default 1000)
+	Full    *LeanProc     // profile `full`: KV commands are executed by this cgv-full server instead of mocktikv's MVCC store
 	MaxRPCs int           // RPC budget of the scenario (default 2000): beyond it the scenario is reported as hung
 }
 
@@ -69,7 +70,8 @@ type World struct {
 	rpc     *mocktikv.RPCClient
 	pdc     pd.Client
 	gate    *Gate
-	closed  bool // guarded by rec.mu
+	lean    *leanStore // profile full
+	closed  bool       // guarded by rec.mu
 
 	physical int64 // guarded by rec.mu
 	logical  int64
@@ -107,7 +109,16 @@ func NewWorld(rec *Recorder, opt Options) *World {
 	rec.mu.Lock()
 	rec.cases++
 	rec.run.Comment(fmt.Sprintf("case %d", rec.cases))
-	rec.run.Emit("reset", "ok")
+	if opt.Full != nil {
+		// the Lean store is shared by all scenarios of the run: every use of it happens under the trace lock
+		w.lean = &leanStore{w: w, rpc: rpc, proc: opt.Full}
+		if a := opt.Full.Ask("reset"); a != "ok" {
+			panic("cgv-full: reset answered " + a)
+		}
+		rec.run.Emit("reset full", "ok")
+	} else {
+		rec.run.Emit("reset", "ok")
+	}
 	rec.mu.Unlock()
 	for _, k := range opt.Splits {
 		w.splitLocked(k, false)
@@ -310,7 +321,11 @@ type Client struct {
 // NewClient creates a logical client.  Its store start-up (one timestamp for the oracle) is part of the trace.
 func (w *World) NewClient(name string) *Client {
 	c := &Client{w: w, name: name}
-	store, err := tikv.NewTestTiKVStore(w.rpc, &vpd{Client: w.pdc, w: w, c: c},
+	var inner tikv.Client = w.rpc
+	if w.lean != nil {
+		inner = w.lean
+	}
+	store, err := tikv.NewTestTiKVStore(inner, &vpd{Client: w.pdc, w: w, c: c},
 		func(inner tikv.Client) tikv.Client { return &gateClient{g: w.gate, c: c, inner: inner} }, nil, 0)
 	if err != nil {
 		panic(err)
@@ -414,15 +429,25 @@ func (w *World) auditLocked() {
 	clients := append([]*Client{}, w.clients...)
 	w.cmu.Unlock()
 	sort.Strings(keys)
-	for _, k := range keys {
-		w.emitLocked(fmt.Sprintf("audit mvcc %s %s", Hx([]byte(k)), mocktikv.VerifDumpKey(w.mvcc, []byte(k), Hx)))
+	if w.lean != nil {
+		if w.closed {
+			return
+		}
+		for _, k := range keys {
+			w.emitLocked(fmt.Sprintf("audit mvcc %s %s", Hx([]byte(k)), w.lean.proc.Ask("dump "+Hx([]byte(k)))))
+		}
+		w.emitLocked("audit locks " + w.lean.proc.Ask("locks"))
+	} else {
+		for _, k := range keys {
+			w.emitLocked(fmt.Sprintf("audit mvcc %s %s", Hx([]byte(k)), mocktikv.VerifDumpKey(w.mvcc, []byte(k), Hx)))
+		}
+		locks, _ := w.mvcc.ScanLock(nil, nil, math.MaxUint64)
+		ls := make([]string, 0, len(locks))
+		for _, l := range locks {
+			ls = append(ls, fmt.Sprintf("%s/%s/%d", Hx(l.Key), Hx(l.PrimaryLock), l.LockVersion))
+		}
+		w.emitLocked("audit locks " + ShowList(ls))
 	}
-	locks, _ := w.mvcc.ScanLock(nil, nil, math.MaxUint64)
-	ls := make([]string, 0, len(locks))
-	for _, l := range locks {
-		ls = append(ls, fmt.Sprintf("%s/%s/%d", Hx(l.Key), Hx(l.PrimaryLock), l.LockVersion))
-	}
-	w.emitLocked("audit locks " + ShowList(ls))
 	for _, c := range clients {
 		for _, t := range c.txns {
 			w.emitLocked(fmt.Sprintf("audit outcome %s %d %s", c.name, t.startTS, t.outcome()))
